@@ -47,6 +47,7 @@ func main() {
 	write("Autosave.lean", genAutosave())
 	write("AdminGate.lean", genAdminGate())
 	write("ProxyCount.lean", genProxyCount())
+	write("Encode.lean", genEncode())
 	write("Forwarding.lean", genForwarding())
 
 	// typed scan, cached by content hash of the scanned sources
@@ -207,7 +208,6 @@ func exprText(e ast.Expr) string {
 	return "?"
 }
 
-
 // ---------------------------------------------------------------- inlining walker
 //
 // Several facts are about the ORDER in which a function performs certain calls. A refactoring that
@@ -344,6 +344,119 @@ func genConsts() string {
 	v, ok = greaterThanConst(findFunc(rf, "Replacer", "replace"), "unclosedCount")
 	sb.WriteString("/-- `replace` gives up after more than this many unclosed placeholders (replacer.go) -/\n")
 	sb.WriteString("def replacerUnclosedLimit : Option Nat := " + optNat(v, ok) + "\n")
+	sb.WriteString(footer)
+	return sb.String()
+}
+
+// ---------------------------------------------------------------- encode handler (C15)
+
+// strLits returns the string literals of a composite literal like []string{"a", "b"}.
+func strLits(cl *ast.CompositeLit) []string {
+	var out []string
+	for _, e := range cl.Elts {
+		if bl, ok := e.(*ast.BasicLit); ok && bl.Kind == token.STRING {
+			if v, err := strconv.Unquote(bl.Value); err == nil {
+				out = append(out, v)
+			}
+		}
+	}
+	return out
+}
+
+// genEncode reads off modules/caddyhttp/encode:
+//   - Provision: the values of the "Content-Type" key of the default ResponseMatcher's Headers literal
+//   - the constants defaultMinLength and sniffLen
+//   - responseWriter.init: the header edits hdr.Del/Set/Add(<literal>, …) in source order
+//   - UnmarshalCaddyfile: the []string literal assigned to remainingArgs (formats used when none is named)
+func genEncode() string {
+	var sb strings.Builder
+	sb.WriteString(header)
+	_, ef := parseFile("modules/caddyhttp/encode/encode.go")
+	var cts []string
+	if fd := findFunc(ef, "Encode", "Provision"); fd != nil {
+		ast.Inspect(fd, func(n ast.Node) bool {
+			kv, ok := n.(*ast.KeyValueExpr)
+			if !ok {
+				return true
+			}
+			if k, ok := kv.Key.(*ast.BasicLit); ok && k.Value == `"Content-Type"` {
+				if cl, ok := kv.Value.(*ast.CompositeLit); ok {
+					cts = append(cts, strLits(cl)...)
+				}
+			}
+			return true
+		})
+	}
+	sb.WriteString("/-- encode.go `Provision`: Content-Type patterns of the default response matcher, in source order -/\n")
+	sb.WriteString("def encodeDefaultContentTypes : List String := " + leanStrList(cts) + "\n\n")
+	consts := map[string]string{}
+	if ef != nil {
+		ast.Inspect(ef, func(n ast.Node) bool {
+			vs, ok := n.(*ast.ValueSpec)
+			if !ok {
+				return true
+			}
+			for i, name := range vs.Names {
+				if i < len(vs.Values) {
+					if bl, ok := vs.Values[i].(*ast.BasicLit); ok && bl.Kind == token.INT {
+						consts[name.Name] = bl.Value
+					}
+				}
+			}
+			return true
+		})
+	}
+	for _, c := range []struct{ goName, leanName, doc string }{
+		{"defaultMinLength", "encodeDefaultMinLength", "encode.go `defaultMinLength`"},
+		{"sniffLen", "encodeSniffLen", "encode.go `sniffLen`"},
+	} {
+		n, err := strconv.Atoi(consts[c.goName])
+		sb.WriteString("/-- " + c.doc + " -/\ndef " + c.leanName + " : Option Nat := " + optNat(n, err == nil) + "\n\n")
+	}
+	var edits []string
+	if fd := findFunc(ef, "responseWriter", "init"); fd != nil {
+		ast.Inspect(fd, func(n ast.Node) bool {
+			ce, ok := n.(*ast.CallExpr)
+			if !ok {
+				return true
+			}
+			sel, ok := ce.Fun.(*ast.SelectorExpr)
+			if !ok || len(ce.Args) == 0 {
+				return true
+			}
+			if x, ok := sel.X.(*ast.Ident); !ok || x.Name != "hdr" {
+				return true
+			}
+			switch sel.Sel.Name {
+			case "Del", "Set", "Add":
+				if bl, ok := ce.Args[0].(*ast.BasicLit); ok && bl.Kind == token.STRING {
+					v, _ := strconv.Unquote(bl.Value)
+					edits = append(edits, sel.Sel.Name+" "+v)
+				}
+			}
+			return true
+		})
+	}
+	sb.WriteString("/-- encode.go `responseWriter.init`: the edits `hdr.Del/Set/Add(<field>, …)` in source order -/\n")
+	sb.WriteString("def encodeInitHeaderEdits : List String := " + leanStrList(edits) + "\n\n")
+	_, cf := parseFile("modules/caddyhttp/encode/caddyfile.go")
+	var defaults []string
+	if fd := findFunc(cf, "Encode", "UnmarshalCaddyfile"); fd != nil {
+		ast.Inspect(fd, func(n ast.Node) bool {
+			as, ok := n.(*ast.AssignStmt)
+			if !ok || len(as.Lhs) != 1 || len(as.Rhs) != 1 {
+				return true
+			}
+			if id, ok := as.Lhs[0].(*ast.Ident); ok && id.Name == "remainingArgs" {
+				if cl, ok := as.Rhs[0].(*ast.CompositeLit); ok {
+					defaults = strLits(cl)
+				}
+			}
+			return true
+		})
+	}
+	sb.WriteString("/-- encode/caddyfile.go `UnmarshalCaddyfile`: the formats used when the directive names none -/\n")
+	sb.WriteString("def encodeCaddyfileDefaultFormats : List String := " + leanStrList(defaults) + "\n")
 	sb.WriteString(footer)
 	return sb.String()
 }
@@ -735,8 +848,8 @@ type logSite struct {
 	kind  string // wrapped | wrapped-value | wrappedcred:<flag> | headerget:<name> | raw:<type>
 }
 
-func (s logSite) pkg() string  { return strings.SplitN(s.where, ".", 2)[0] }
-func (s logSite) fn() string   { return strings.SplitN(s.where+".", ".", 3)[1] }
+func (s logSite) pkg() string { return strings.SplitN(s.where, ".", 2)[0] }
+func (s logSite) fn() string  { return strings.SplitN(s.where+".", ".", 3)[1] }
 
 func isSensitiveType(t types.Type) string {
 	s := types.TypeString(t, nil)
